@@ -11,7 +11,7 @@ cp "$DEMO" "$DEST/"
 S=$(mktemp -d /tmp/seedrepo_XXXX)
 rsync -a --exclude .git --exclude '*.log' --exclude __pycache__ /repo/ "$S/"
 cd "$S" && git init -q . && git add -A >/dev/null && git commit -qm base >/dev/null
-sed -i "s#/tmp/mut[bc]\?_[A-Za-z0-9_]*#$S#g" "$DEST/$(basename "$DEMO")" 2>/dev/null
+sed -i "s#/tmp/\(mut[bc]\?\|seedwt\)_[A-Za-z0-9_]*#$S#g" "$DEST/$(basename "$DEMO")" 2>/dev/null
 cp "$DEST/$(basename "$DEMO")" "$S/"
 run_demo() { ( cd "$S" && PYTHONPATH="$S/src:$S" timeout 300 /venv/bin/python "$(basename "$DEMO")" >/dev/null 2>&1; echo $? ); }
 WITHOUT=$(run_demo)
